@@ -119,53 +119,61 @@ Definition matches_structure (r : row) (p : Z * Z) (v : text) : outcome bool :=
   | None => Crash PAssertionError       (* structure strings the reader does not understand: not modelled *)
   end.
 
-(* BBAN.from_components(country_code, **values) *)
+(* BBAN.from_components(country_code, **values), in named pieces (Proofs/PlaceFacts.v reasons about each) *)
+Definition fc_ranges (r : row) : list (text * (Z * Z)) := map (fun c => (c, position_range r c)) components.
+Definition fc_rng (r : row) (c : text) : Z * Z :=
+  match assoc c (fc_ranges r) with Some p => p | None => (0, 0)%Z end.
+Definition fc_comps0 (r : row) (values : list (text * text)) : list (text * text) :=
+  map (fun cr => (fst cr, zfill (clean e (get_val (fst cr) values)) (range_length (snd cr)))) (fc_ranges r).
+Definition fc_split (r : row) (comps0 : list (text * text)) : bool :=
+  negb (Z.eqb (range_length (fc_rng r k_branch)) 0)
+  && Z.eqb (len (get_val k_bank comps0)) (range_length (fc_rng r k_bank) + range_length (fc_rng r k_branch)).
+Definition fc_comps1 (r : row) (comps0 : list (text * text)) : list (text * text) :=
+  if fc_split r comps0 then
+    let bank_len := range_length (fc_rng r k_bank) in
+    let branch_len := range_length (fc_rng r k_branch) in
+    let bc := get_val k_bank comps0 in
+    set_assoc k_bank (py_slice_to bc bank_len)
+      (set_assoc k_branch (py_slice bc bank_len (bank_len + branch_len)) comps0)
+  else comps0.
+Definition fc_error (k : text) : exn :=
+  if text_eqb k k_bank then EInvalidBankCode
+  else if text_eqb k k_branch then EInvalidBranchCode
+  else if text_eqb k k_account then EInvalidAccountCode
+  else EInvalidStructure.
+Fixpoint fc_check (r : row) (values : list (text * text)) (l : list (text * text)) : outcome unit :=
+  match l with
+  | [] => Ok tt
+  | (k, v) :: rest =>
+    let checked := text_eqb k k_bank || text_eqb k k_branch || text_eqb k k_account
+                   || nonempty_text (get_val k values) in
+    do m <- (if checked then matches_structure r (fc_rng r k) v else Ok true);
+    if m then fc_check r values rest else Err (fc_error k)
+  end.
+Definition place (p : Z * Z) (v acc : text) : text := py_slice_to acc (fst p) ++ v ++ py_slice_from acc (snd p).
+Definition fc_step (r : row) (acc : text) (kv : text * text) : text :=
+  let p := fc_rng r (fst kv) in if range_is_empty p then acc else place p (snd kv) acc.
+Definition fc_place (r : row) (comps : list (text * text)) : text :=
+  fold_left (fc_step r) comps (zeros (Z.to_nat (r_bban_length r))).
+Definition fc_comps2 (checksum : text) (comps1 : list (text * text)) : list (text * text) :=
+  match checksum with [] => comps1 | _ => set_assoc k_national checksum comps1 end.
+
 Definition from_components (cc : text) (values : list (text * text)) : outcome text :=
   do r <- get_spec cc;
   match r_positions r with
   | None => Err ESchwifty
   | Some _ =>
-    let ranges := map (fun c => (c, position_range r c)) components in
-    let comps0 := map (fun cr => (fst cr, zfill (clean e (get_val (fst cr) values)) (range_length (snd cr)))) ranges in
-    let rng c := match assoc c ranges with Some p => p | None => (0, 0)%Z end in
-    let bank_len := range_length (rng k_bank) in
-    let branch_len := range_length (rng k_branch) in
-    let account_len := range_length (rng k_account) in
-    let split := negb (Z.eqb branch_len 0) && Z.eqb (len (get_val k_bank comps0)) (bank_len + branch_len) in
-    if split && nonempty_text (get_val k_branch values) then Err EInvalidBranchCode      (* given twice *)
+    let comps0 := fc_comps0 r values in
+    if fc_split r comps0 && nonempty_text (get_val k_branch values) then Err EInvalidBranchCode      (* given twice *)
     else
-    let comps1 :=
-      if split then
-        let bc := get_val k_bank comps0 in
-        set_assoc k_bank (py_slice_to bc bank_len)
-          (set_assoc k_branch (py_slice bc bank_len (bank_len + branch_len)) comps0)
-      else comps0 in
-    if Z.ltb bank_len (len (get_val k_bank comps1)) then Err EInvalidBankCode
-    else if Z.ltb branch_len (len (get_val k_branch comps1)) then Err EInvalidBranchCode
-    else if Z.ltb account_len (len (get_val k_account comps1)) then Err EInvalidAccountCode
+    let comps1 := fc_comps1 r comps0 in
+    if Z.ltb (range_length (fc_rng r k_bank)) (len (get_val k_bank comps1)) then Err EInvalidBankCode
+    else if Z.ltb (range_length (fc_rng r k_branch)) (len (get_val k_branch comps1)) then Err EInvalidBranchCode
+    else if Z.ltb (range_length (fc_rng r k_account)) (len (get_val k_account comps1)) then Err EInvalidAccountCode
     else
-      do _ok <- (fix chk (l : list (text * text)) : outcome unit :=
-                   match l with
-                   | [] => Ok tt
-                   | (k, v) :: rest =>
-                     let checked := text_eqb k k_bank || text_eqb k k_branch || text_eqb k k_account
-                                    || nonempty_text (get_val k values) in
-                     do m <- (if checked then matches_structure r (rng k) v else Ok true);
-                     if m then chk rest
-                     else Err (if text_eqb k k_bank then EInvalidBankCode
-                               else if text_eqb k k_branch then EInvalidBranchCode
-                               else if text_eqb k k_account then EInvalidAccountCode
-                               else EInvalidStructure)
-                   end) comps1;
+      do _ok <- fc_check r values comps1;
       do checksum <- compute_national cc comps1;
-      let comps2 := match checksum with [] => comps1 | _ => set_assoc k_national checksum comps1 end in
-      let bban0 := zeros (Z.to_nat (r_bban_length r)) in
-      let bban := fold_left (fun acc kv =>
-                    let p := rng (fst kv) in
-                    if range_is_empty p then acc
-                    else py_slice_to acc (fst p) ++ snd kv ++ py_slice_from acc (snd p))
-                  comps2 bban0 in
-      Ok (clean e bban)
+      Ok (clean e (fc_place r (fc_comps2 checksum comps1)))
   end.
 
 End Bban.
